@@ -176,5 +176,9 @@ func checkC02(w *World, r *Run) {
 		r.Check(allowed || nullVersionGuarded(c), ruleInPlace, cons, posOf(c), "null version / pending upload only", "an existing row that may be a real version is rewritten in place (content, size, ETag): a returned version id no longer reads back its original content")
 	}
 	checkC02PromotionUnconditional(w, r)
+	checkVersionOrderRanksNull(w, r)
+	if c := c20Context(w, r); c != nil {
+		checkCacheMutators(w, r, c)
+	}
 	r.NotCovered("which version is current over arbitrary histories; readability of each version's part data (C08/C40); Last-Modified stability (C13)")
 }
